@@ -3255,7 +3255,9 @@ class SeriesPair(TwoPortThing):
         n2, n1, n4, n3 = netlist._make_nodes(n2, n1, n4, n3)
 
         nets = []
-        nets.append(self.args[0]._net_make(netlist, n1, n3, dir='right'))
+        # As for Series, the positive node of the first one-port is the
+        # output node n3 (V2b = Voc).
+        nets.append(self.args[0]._net_make(netlist, n3, n1, dir='left'))
         nets.append(self.args[1]._net_make(netlist, n2, n4, dir='right'))
         nets.append('O %s %s; down' % (n1, n2))
         nets.append('O %s %s; down' % (n3, n4))
